@@ -441,7 +441,14 @@ func canon(kind string) pMsg {
 // ---------------------------------------------------------------------------------------------
 // reference encoder
 
-type enc struct{ b []byte }
+// enc also records the offsets of all count / length fields (marks), the targets of the
+// structure-aware payload mutations.
+type enc struct {
+	b     []byte
+	marks []int
+}
+
+func (e *enc) mark() { e.marks = append(e.marks, len(e.b)) }
 
 func (e *enc) u8(v uint8)   { e.b = append(e.b, v) }
 func (e *enc) u16(v uint16) { e.b = binary.LittleEndian.AppendUint16(e.b, v) }
@@ -456,6 +463,7 @@ func (e *enc) boolean(v bool) {
 	}
 }
 func (e *enc) varuint(v uint64) {
+	e.mark()
 	switch {
 	case v < 0xFD:
 		e.u8(uint8(v))
@@ -471,6 +479,12 @@ func (e *enc) varuint(v uint64) {
 	}
 }
 func (e *enc) varbytes(v []byte) { e.varuint(uint64(len(v))); e.raw(v) }
+func (e *enc) sub(s *enc) { // append a nested encoding, keeping its marks
+	for _, m := range s.marks {
+		e.marks = append(e.marks, len(e.b)+m)
+	}
+	e.b = append(e.b, s.b...)
+}
 
 func fix(b []byte, n int) []byte { // fixed-width field (defensive against hand-edited replay files)
 	out := make([]byte, n)
@@ -483,7 +497,9 @@ func sha256d(b []byte) [32]byte {
 	return sha256.Sum256(a[:])
 }
 
-func refTxUnsigned(x pTx) []byte {
+func refTxUnsigned(x pTx) []byte { return refTxUnsignedEnc(x).b }
+
+func refTxUnsignedEnc(x pTx) *enc {
 	e := &enc{}
 	e.u8(0)    // version
 	e.u8(0xd1) // invoke
@@ -495,27 +511,33 @@ func refTxUnsigned(x pTx) []byte {
 	e.varbytes(nil) // attributes: must be empty
 	e.raw(fix(x.Payer, 20))
 	e.u8(0) // coin type
-	return e.b
+	return e
 }
 
-func refTx(x pTx) []byte {
-	e := &enc{b: refTxUnsigned(x)}
+func refTx(x pTx) []byte { return refTxEnc(x).b }
+
+func refTxEnc(x pTx) *enc {
+	e := refTxUnsignedEnc(x)
 	e.varuint(uint64(len(x.Sigs)))
 	for _, s := range x.Sigs {
+		e.mark()
 		e.u16(uint16(len(s.Data)))
 		for _, d := range s.Data {
 			e.varbytes(d)
 		}
+		e.mark()
 		e.u16(uint16(len(s.Keys)))
 		for _, k := range s.Keys {
 			e.varbytes(keyBytes[keyIdx(k)])
 		}
 		e.u16(s.M)
 	}
-	return e.b
+	return e
 }
 
-func refHdr(h pHdr, txroot []byte) []byte {
+func refHdr(h pHdr, txroot []byte) []byte { return refHdrEnc(h, txroot).b }
+
+func refHdrEnc(h pHdr, txroot []byte) *enc {
 	e := &enc{}
 	e.u32(0)
 	e.u64(h.Chain)
@@ -536,7 +558,7 @@ func refHdr(h pHdr, txroot []byte) []byte {
 	for _, s := range h.Sigs {
 		e.varbytes(s)
 	}
-	return e.b
+	return e
 }
 
 // refMerkle: Bitcoin-style root (double SHA-256 of the concatenated pair, odd node paired with
@@ -597,7 +619,9 @@ func wellFormed(m pMsg) bool {
 }
 
 // refPayload encodes the payload of m from the wire-format description.
-func refPayload(m pMsg) []byte {
+func refPayload(m pMsg) []byte { return refPayloadEnc(m).b }
+
+func refPayloadEnc(m pMsg) *enc {
 	e := &enc{}
 	switch m.Kind {
 	case "ping", "pong":
@@ -620,6 +644,7 @@ func refPayload(m pMsg) []byte {
 		e.boolean(m.Flag)
 	case "getaddr", "disconnect":
 	case "addr":
+		e.mark()
 		e.u64(uint64(len(m.Addrs)))
 		for _, a := range m.Addrs {
 			e.u64(uint64(a.Time))
@@ -634,12 +659,14 @@ func refPayload(m pMsg) []byte {
 		e.raw(fix(m.H1, 32))
 		e.raw(fix(m.H2, 32))
 	case "headers":
+		e.mark()
 		e.u32(uint32(len(m.Hdrs)))
 		for _, h := range m.Hdrs {
-			e.raw(refHdr(h, h.TxRoot))
+			e.sub(refHdrEnc(h, h.TxRoot))
 		}
 	case "inv":
 		e.u8(m.U8)
+		e.mark()
 		e.u32(uint32(len(m.Hashes)))
 		for _, h := range m.Hashes {
 			e.raw(fix(h, 32))
@@ -650,13 +677,14 @@ func refPayload(m pMsg) []byte {
 	case "notfound":
 		e.raw(fix(m.H1, 32))
 	case "tx":
-		e.raw(refTx(m.Txs[0]))
+		e.sub(refTxEnc(m.Txs[0]))
 	case "block":
 		root, _ := blockTxRoot(m)
-		e.raw(refHdr(m.Hdrs[0], root))
+		e.sub(refHdrEnc(m.Hdrs[0], root))
+		e.mark()
 		e.u32(uint32(len(m.Txs)))
 		for _, x := range m.Txs {
-			e.raw(refTx(x))
+			e.sub(refTxEnc(x))
 		}
 		e.raw(fix(m.H1, 32))
 	case "consensus":
@@ -670,7 +698,7 @@ func refPayload(m pMsg) []byte {
 		e.varbytes(keyBytes[keyIdx(c.Owner)])
 		e.varbytes(c.Sig)
 	}
-	return e.b
+	return e
 }
 
 // refFrame builds a frame from the description: magic LE, command NUL-padded to 12 bytes, payload
